@@ -24,13 +24,18 @@
 (*   reached through import.  ImportThread = "inline": it runs in T itself *)
 (*   (the code); "nested": the import is given a helper thread O of its    *)
 (*   own which T joins -- stopping T leaves O running for ever.            *)
+(* Kind = unwinder: a loop whose clean-up clause (finally / __exit__) FAILS *)
+(*   while the thread unwinds from the injected exit, so what T hands back *)
+(*   is that error, not the exit.  TimeoutPolicy = "timeout_wins": M reports*)
+(*   the timeout whatever T recorded (the code); "thread_exc_wins": M looks *)
+(*   at T's cell after the limit and prefers an error found there.         *)
 (* NextRun = "plain": the later execution is unthreaded; "threaded": it is *)
 (*   threaded too, and (Kind = blocked) its program releases the lock the  *)
 (*   abandoned thread is blocked on, so that thread dies DURING it.        *)
 (***************************************************************************)
 EXTENDS Naturals, Sequences, TLC, Json
 
-CONSTANTS Design, Kind, MaxSteps, Inject, Handback, NextRun, ImportThread
+CONSTANTS Design, Kind, MaxSteps, Inject, Handback, NextRun, ImportThread, TimeoutPolicy
 
 (* --algorithm race
 variables
@@ -96,7 +101,9 @@ t_immortal: tState := "immortal";
 t_i2:     await FALSE;
 \* --- the asynchronous SystemExit surfaced in T
 t_exit:   hook("T:exit");
-          if Design = "grader_bookkeeping" then xcell[MySlot] := "sysexit"; goto t_dead end if;
+          if Design = "grader_bookkeeping" then
+             xcell[MySlot] := IF Kind = "unwinder" THEN "unwind_error" ELSE "sysexit"; goto t_dead
+          end if;
 \* student_bookkeeping: `except SystemExit` handler of _execute, access by access
 th_check: if patches = <<>> then goto th_popOut end if;
 th_pop:   if patches = <<>> then crashed := crashed \cup {"T:IndexError"}; goto t_dead
@@ -154,7 +161,7 @@ mh_popOut: if Design = "grader_bookkeeping" then
              if stdouts = <<>> then crashed := crashed \cup {"M:IndexError"}; goto m_ret
              else raw := Append(raw, <<Head(stdouts), buf[Head(stdouts)]>>); stdouts := Tail(stdouts) end if;
           end if;
-mh_excW:  exc := "timeout";
+mh_excW:  exc := IF TimeoutPolicy = "thread_exc_wins" /\ xcell["r1"] = "unwind_error" THEN "unwind_error" ELSE "timeout";
 mh_build: fbs := Append(fbs, exc);
           goto m_ret;
 \* --- the thread ended within the limit
@@ -361,7 +368,7 @@ t_i2 == /\ pc["T"] = "t_i2"
 t_exit == /\ pc["T"] = "t_exit"
           /\ sched' = Append(sched, "T:exit")
           /\ IF Design = "grader_bookkeeping"
-                THEN /\ xcell' = [xcell EXCEPT ![MySlot] = "sysexit"]
+                THEN /\ xcell' = [xcell EXCEPT ![MySlot] = IF Kind = "unwinder" THEN "unwind_error" ELSE "sysexit"]
                      /\ pc' = [pc EXCEPT !["T"] = "t_dead"]
                 ELSE /\ pc' = [pc EXCEPT !["T"] = "th_check"]
                      /\ xcell' = xcell
@@ -650,7 +657,7 @@ mh_popOut == /\ pc["M"] = "mh_popOut"
                              steps, tmp, osteps, mtmp >>
 
 mh_excW == /\ pc["M"] = "mh_excW"
-           /\ exc' = "timeout"
+           /\ exc' = (IF TimeoutPolicy = "thread_exc_wins" /\ xcell["r1"] = "unwind_error" THEN "unwind_error" ELSE "timeout")
            /\ pc' = [pc EXCEPT !["M"] = "mh_build"]
            /\ UNCHANGED << patches, stdouts, pOut, buf, realOut, raw, fbs, 
                            pending, tState, cur, xcell, released, nOutcome, 
